@@ -227,6 +227,18 @@ class Env:
         return lid in self.defs and self.assigned.get(lid, 0) == 0
 
 
+class PK(tuple):
+    """pattern key that also remembers the names bound at each position of a tuple-struct / struct pattern
+    (compares and hashes like the plain tuple)"""
+    binds = None
+
+
+def _pk(t, binds):
+    r = PK(t)
+    r.binds = binds
+    return r
+
+
 def pat_key(p, facts=None):
     k = p["k"]
     if k == "PWild":
@@ -241,9 +253,14 @@ def pat_key(p, facts=None):
         if to.get("dk", "").startswith("Ctor") or to.get("dk") == "Variant":
             return ("variant", to.get("ctor_of") or to["path"])
         return ("const", to.get("path"))
-    if k in ("PStruct", "PTupleStruct"):
+    if k == "PTupleStruct":
         to = p["to"]
-        return ("variant", to.get("ctor_of") or to.get("path"))
+        binds = tuple((x.get("name") if x.get("k") == "PBind" and not x.get("sub") else None) for x in p.get("pats") or ())
+        return _pk(("variant", to.get("ctor_of") or to.get("path")), binds)
+    if k == "PStruct":
+        to = p["to"]
+        binds = {f["name"]: (f["pat"].get("name") if f["pat"].get("k") == "PBind" and not f["pat"].get("sub") else None) for f in p.get("fields") or ()}
+        return _pk(("variant", to.get("ctor_of") or to.get("path")), binds)
     if k == "POr":
         return ("or",) + tuple(pat_key(x, facts) for x in p["pats"])
     if k == "PRange":
@@ -361,7 +378,7 @@ class Sym:
         if k == "Let":
             return ("let", pat_key(n["pat"]), s(n["init"]), tuple(pat_names(n["pat"])))
         if k == "Closure":
-            return ("closure", tuple(p.get("name", "_") for p in n.get("params", [])), s(n["body"]))
+            return ("closure", tuple((p.get("name") or (pat_names(p) + ["_"])[0]) for p in n.get("params", [])), s(n["body"]))
         if k == "Block":
             if n.get("expr") is not None and all(x.get("k") == "SLet" for x in n.get("stmts") or ()):
                 return s(n["expr"])
@@ -711,7 +728,7 @@ class Exec(Sym):
                 return self.store[lid]
             if lid in self.env.mutable or self.env.assigned.get(lid, 0):
                 return ("var", n0["to"]["name"])
-        if n0.get("k") == "Field":
+        if n0.get("k") in ("Field", "Index"):
             fk = self.field_key(n0, d)
             if fk is not None and fk in self.store:
                 return self.store[fk]
@@ -757,6 +774,13 @@ class Exec(Sym):
             b = strip(n["e"])
             if b.get("k") == "Path" and b["to"].get("res") == "local":
                 return ("fieldstore", b["to"]["name"], n["name"])
+        if n.get("k") == "Index":
+            # `<local>.field[i]` : one abstract slot per array (which index is used is checked by the rule that needs it)
+            b = strip(n["e"])
+            if b.get("k") == "Field":
+                bb = strip(b["e"])
+                if bb.get("k") == "Path" and bb["to"].get("res") == "local":
+                    return ("fieldstore", bb["to"]["name"], b["name"] + "[]")
         return None
 
     def local_id(self, n):
@@ -1043,6 +1067,8 @@ def fold(t, assume, discr=None, helpers=None):
                         return v
             if b[0] == "tup" and t[2].isdigit() and int(t[2]) < len(b) - 1:
                 return b[1 + int(t[2])]
+            if b[0] == "ctor" and t[2].isdigit() and int(t[2]) < len(b[2]):
+                return b[2][int(t[2])]
             return r
         if h == "cast":
             x = f(t[1])
@@ -1132,6 +1158,11 @@ def fold(t, assume, discr=None, helpers=None):
                         if gg != ("lit", True):
                             return ("match", sc, tuple((p, g_, f(b_)) for p, g_, b_ in t[2]))
                     if _pat_matches(pk_, sc):
+                        binds = getattr(pk_, "binds", None)
+                        if sc[0] == "ctor" and isinstance(binds, tuple) and len(binds) == len(sc[2]):
+                            m_ = {("var", nm): v for nm, v in zip(binds, sc[2]) if nm}
+                            if m_:
+                                return f(subst(body, m_))
                         return f(body)
                 return ("nomatch", sc)
             return ("match", sc, tuple((p, g, f(b)) for p, g, b in t[2]))
@@ -1159,6 +1190,53 @@ def fold(t, assume, discr=None, helpers=None):
                     return ("lit", False)
                 if args[0][0] == "ctor" and str(args[0][1]).endswith("::Some"):
                     return ("lit", True)
+            # Option algebra on a known constructor
+            if "Option::<T>::" in ck and args:
+                o = args[0]
+                none = o[0] == "variant" and str(o[1]).endswith("::None")
+                some = o[0] == "ctor" and str(o[1]).endswith("::Some") and len(o[2]) == 1
+                meth = ck.rsplit("::", 1)[-1]
+                if none or some:
+                    v_ = o[2][0] if some else None
+
+                    def app(clo, *xs):
+                        if isinstance(clo, tuple) and clo and clo[0] == "closure" and len(clo[1]) == len(xs):
+                            return f(subst(clo[2], {("var", nm): x for nm, x in zip(clo[1], xs)}))
+                        return ("call", "apply", (clo,) + tuple(xs))
+                    if meth == "is_none":
+                        return ("lit", none)
+                    if meth in ("unwrap", "expect", "unwrap_unchecked") and some:
+                        return v_
+                    if meth == "unwrap_or" and len(args) == 2:
+                        return v_ if some else args[1]
+                    if meth == "unwrap_or_else" and len(args) == 2:
+                        return v_ if some else app(args[1])
+                    if meth == "unwrap_or_default" and some:
+                        return v_
+                    if meth == "map" and len(args) == 2:
+                        return ("ctor", o[1], (app(args[1], v_),)) if some else o
+                    if meth == "map_or" and len(args) == 3:
+                        return app(args[2], v_) if some else args[1]
+                    if meth == "map_or_else" and len(args) == 3:
+                        return app(args[2], v_) if some else app(args[1])
+                    if meth == "and_then" and len(args) == 2:
+                        return app(args[1], v_) if some else o
+                    if meth == "is_some_and" and len(args) == 2:
+                        return app(args[1], v_) if some else ("lit", False)
+                    if meth == "is_none_or" and len(args) == 2:
+                        return app(args[1], v_) if some else ("lit", True)
+                    if meth in ("copied", "cloned", "as_ref", "as_mut", "take"):
+                        return o
+                    if meth == "or" and len(args) == 2:
+                        return o if some else args[1]
+                    if meth == "filter" and len(args) == 2:
+                        c_ = app(args[1], v_) if some else None
+                        if none:
+                            return o
+                        if c_ == ("lit", True):
+                            return o
+                        if c_ == ("lit", False):
+                            return ("variant", str(o[1]).rsplit("::", 1)[0] + "::None")
             return ("call", t[1], args)
         if h == "ctor":
             return ("ctor", t[1], tuple(f(x) for x in t[2]))
